@@ -1691,4 +1691,96 @@ theorem bindZipRev_complete (σ : Bnd) : (rs ss : List Ty) → dataList ss = tru
 end
 
 
+/-! ## the result type of a generic call is closed -/
+
+/-- no value of the binding mentions generic `g` -/
+def BNoGen (g : String) (b : Bnd) : Prop := ∀ k v, (k, v) ∈ b → mentionsGeneric g v = false
+
+theorem bnogen_insert {g : String} {b : Bnd} (k : String) (v : Ty) (hb : BNoGen g b) (hv : mentionsGeneric g v = false) :
+    BNoGen g (Bnd.insert b k v) := by
+  intro k1 v1 hm
+  rcases mem_insert b k v _ hm with h | h
+  · cases h; exact hv
+  · exact hb k1 v1 h
+
+/-- after `fillUnbound`, every listed generic that the arguments do not mention is bound; no value mentions `g` -/
+theorem fillUnbound_spec (args : List Ty) (g : String) : (gens : List String) → (b : Bnd) → BNoGen g b →
+    BNoGen g (fillUnbound args b gens) ∧
+    (∀ k, (Bnd.get b k).isSome = true → (Bnd.get (fillUnbound args b gens) k).isSome = true) ∧
+    (∀ k, k ∈ gens → mentionsGenericList k args = false → (Bnd.get (fillUnbound args b gens) k).isSome = true)
+  | [], b, hb => ⟨hb, fun _ h => h, fun _ h => by simp at h⟩
+  | x :: xs, b, hb => by
+    simp only [fillUnbound]
+    split
+    · rename_i hc
+      simp only [Bool.and_eq_true, Option.isNone_iff_eq_none, Bool.not_eq_true'] at hc
+      obtain ⟨i1, i2, i3⟩ := fillUnbound_spec args g xs (Bnd.insert b x .unknown)
+        (bnogen_insert x .unknown hb (by simp [mentionsGeneric]))
+      refine ⟨i1, ?_, ?_⟩
+      · intro k hk
+        apply i2
+        by_cases hxk : x = k
+        · subst hxk; simp [get_insert_same]
+        · rw [get_insert_other _ _ _ _ hxk]; exact hk
+      · intro k hk hm
+        simp only [List.mem_cons] at hk
+        rcases hk with rfl | hk
+        · apply i2; simp [get_insert_same]
+        · exact i3 k hk hm
+    · rename_i hc
+      obtain ⟨i1, i2, i3⟩ := fillUnbound_spec args g xs b hb
+      refine ⟨i1, i2, ?_⟩
+      intro k hk hm
+      simp only [List.mem_cons] at hk
+      rcases hk with rfl | hk
+      · apply i2
+        simp only [Bool.and_eq_true, Option.isNone_iff_eq_none, Bool.not_eq_true', not_and, Bool.not_eq_false] at hc
+        cases hg : Bnd.get b k with
+        | some v => rfl
+        | none => have := hc hg; rw [hm] at this; cases this
+      · exact i3 k hk hm
+
+mutual
+/-- resolving with a binding that binds `g` (to types that do not mention `g`) removes `g` from a written type -/
+theorem resolveBind_closed (g : String) (b : Bnd) (hb : BNoGen g b) (hg : (Bnd.get b g).isSome = true) :
+    (t : Ty) → declarable t = true → mentionsGeneric g (resolveBind b t) = false
+  | .bool, _ | .int, _ | .float, _ | .str, _ => by simp [resolveBind, mentionsGeneric]
+  | .unknown, h => by simp [declarable] at h
+  | .func _ _ _ _, h => by simp [declarable] at h
+  | .generic a, _ => by
+    simp only [resolveBind]
+    cases ha : Bnd.get b a with
+    | some v => exact hb a v (get_mem b a v ha)
+    | none =>
+      simp only [mentionsGeneric, beq_eq_false_iff_ne, ne_eq]
+      intro e; subst e; rw [ha] at hg; cases hg
+  | .tuple ts, h => by
+    simp only [declarable] at h
+    simp only [resolveBind, mentionsGeneric]; exact resolveList_closed g b hb hg ts h
+  | .native _ ts, h => by
+    simp only [declarable] at h
+    simp only [resolveBind, mentionsGeneric]; exact resolveList_closed g b hb hg ts h
+  | .compound _ _ ts, h => by
+    simp only [declarable] at h
+    simp only [resolveBind, mentionsGeneric]; exact resolveList_closed g b hb hg ts h
+  | .callable ps r, h => by
+    simp only [declarable, Bool.and_eq_true] at h
+    simp only [resolveBind, mentionsGeneric, Bool.or_eq_false_iff]
+    exact ⟨resolveList_closed g b hb hg ps h.1, resolveBind_closed g b hb hg r h.2⟩
+theorem resolveList_closed (g : String) (b : Bnd) (hb : BNoGen g b) (hg : (Bnd.get b g).isSome = true) :
+    (ts : List Ty) → declarableList ts = true → mentionsGenericList g (resolveList b ts) = false
+  | [], _ => rfl
+  | t :: ts, h => by
+    simp only [declarableList, Bool.and_eq_true] at h
+    simp only [resolveList, mentionsGenericList, Bool.or_eq_false_iff]
+    exact ⟨resolveBind_closed g b hb hg t h.1, resolveList_closed g b hb hg ts h.2⟩
+end
+
+theorem rtypeForCall_closed (gens : List String) (ret : Ty) (b : Bnd) (args : List Ty) (g : String)
+    (hg : g ∈ gens) (hret : declarable ret = true) (hargs : mentionsGenericList g args = false) (hb : BNoGen g b) :
+    mentionsGeneric g (rtypeForCall (some gens) ret b args) = false := by
+  obtain ⟨i1, _, i3⟩ := fillUnbound_spec args g gens b hb
+  exact resolveBind_closed g _ i1 (i3 g hg hargs) ret hret
+
+
 end XrayModel
